@@ -71,8 +71,9 @@ package main
 // ---- C19: configuration errors
 
 //@ func (*program).loadProgram
-//@   prop C19
+//@   prop C19 C08 C15
 //@   requires p != nil
+//@   call SetGoVersion requires @target-version-is-the-go-flag arg1 == p.goVersion
 
 // ---- C14: parameter values travel from the flag cells to the registered parameters
 
@@ -144,7 +145,7 @@ package main
 //@   ensures @first-comment-matches result <==> isGenSpec(f)
 
 //@ func (*program).checkPackage
-//@   prop C16
+//@   prop C16 C08 C15
 //@   nosafety loader output (non-nil syntax trees, context) is not restated here
 //@   requires p != nil && pkg != nil && p.ctx != nil && p.ctx.TypesInfo != nil
 //@   requires @files-non-nil forall k int :: (0 <= k && k < len(pkg.Syntax)) ==> pkg.Syntax[k] != nil
